@@ -1379,6 +1379,30 @@ pub(crate) mod verif_probe {
                     json!({"gets": gets})
                 }))
             }
+            "admin_ban" => {
+                // a registered pool (primary h0, replicas h1 h2) with a given ban list; the admin commands through the real handle_admin
+                let rt = tokio::runtime::Builder::new_multi_thread().worker_threads(2).enable_all().build().unwrap();
+                let v = v.clone();
+                Some(rt.block_on(async move {
+                    let (pool, addrs) = bare_pool(&json!(["primary", "replica", "replica"]), 60);
+                    for b in v["before"].as_array().unwrap() {
+                        let i = b.as_u64().unwrap() as usize;
+                        pool.banlist.write()[0].insert(addrs[i].clone(), (BanReason::FailedHealthCheck, chrono::offset::Utc::now().naive_utc()));
+                    }
+                    let mut pools = HashMap::new();
+                    pools.insert(PoolIdentifier::new("db", "u"), pool.clone());
+                    POOLS.store(Arc::new(pools));
+                    let csm: ClientServerMap = Arc::new(Mutex::new(HashMap::new()));
+                    let mut replies = vec![];
+                    for q in v["commands"].as_array().unwrap() {
+                        let mut out: Vec<u8> = vec![];
+                        let r = crate::admin::handle_admin(&mut out, simple_query(q.as_str().unwrap()), csm.clone()).await;
+                        replies.push(json!({"ok": r.is_ok(), "first": out.first().map(|c| (*c as char).to_string())}));
+                    }
+                    let reasons: Vec<String> = pool.banlist.read()[0].iter().map(|(a, (r, _))| format!("{}:{:?}", a.id, r)).collect();
+                    json!({"commands": v["commands"], "before": v["before"], "want": v["want"], "duration": v["duration"], "banned_after": banned_ids(&pool), "reasons": reasons, "replies": replies})
+                }))
+            }
             "admin_pause_resume" => {
                 // two registered pools (db1/u1, db2/u2) with given pause states; the admin commands through the real handle_admin
                 let rt = tokio::runtime::Builder::new_multi_thread().worker_threads(2).enable_all().build().unwrap();
